@@ -29,7 +29,20 @@ struct Target {
 static TARGETS: Mutex<Vec<Target>> = Mutex::new(Vec::new());
 static WINDOW_MS: AtomicUsize = AtomicUsize::new(25);
 
-fn hook(_point: usize) {
+thread_local! { static PARKING_READER: std::cell::Cell<bool> = const { std::cell::Cell::new(false) }; }
+static PARK_INSIDE: AtomicBool = AtomicBool::new(false);
+static PARK_GO: AtomicBool = AtomicBool::new(false);
+
+fn hook(point: usize) {
+    if point == 10 {
+        // inside Tracer::snapshot, read lock held: only the designated reader parks here
+        if PARKING_READER.with(std::cell::Cell::get) {
+            PARK_INSIDE.store(true, Ordering::SeqCst);
+            let deadline = std::time::Instant::now() + Duration::from_secs(5);
+            while !PARK_GO.load(Ordering::SeqCst) && std::time::Instant::now() < deadline { std::thread::sleep(Duration::from_millis(1)); }
+        }
+        return;
+    }
     let y = YIELD_IDX.fetch_add(1, Ordering::SeqCst);
     if COUNTING.load(Ordering::SeqCst) {
         return;
@@ -228,6 +241,52 @@ fn controlled(ms: usize, mf: usize, rounds: &[RoundIn], pre: &[(usize, usize, bo
     out.case(&input, &output, &crate::oracles::verdict(&fails));
 }
 
+
+/// a reader parked INSIDE snapshot() (read lock held, before the clone) while the tracer publishes the remaining rounds:
+/// no round may be lost, the reader's value and the final state are whole-rounds states
+fn parked_reader(ms: usize, mf: usize, rounds: &[RoundIn], k: usize, out: &mut Out) {
+    let n = rounds.len();
+    let refs = reference(rounds, ms, mf);
+    COUNTING.store(true, Ordering::SeqCst); // the controlled pre-emption of points 0..3 is off in this scenario
+    let tracer: Tracer = Builder::new("10.0.0.1".parse().unwrap()).max_samples(ms).max_flows(mf).build().unwrap();
+    for r in &rounds[..k] { tracer.verif_apply_round(&to_round(r)); }
+    PARK_INSIDE.store(false, Ordering::SeqCst);
+    PARK_GO.store(false, Ordering::SeqCst);
+    let t1 = tracer.clone();
+    let reader = std::thread::spawn(move || {
+        PARKING_READER.with(|p| p.set(true));
+        let st = t1.snapshot();
+        PARKING_READER.with(|p| p.set(false));
+        render_snapshot(&st)
+    });
+    let deadline = std::time::Instant::now() + Duration::from_secs(3);
+    while !PARK_INSIDE.load(Ordering::SeqCst) && std::time::Instant::now() < deadline { std::thread::sleep(Duration::from_millis(1)); }
+    let done = Arc::new(AtomicBool::new(false));
+    let (t2, d2) = (tracer.clone(), done.clone());
+    let rest: Vec<RoundIn> = rounds[k..].to_vec();
+    let writer = std::thread::spawn(move || { for r in &rest { t2.verif_apply_round(&to_round(r)); } d2.store(true, Ordering::SeqCst); });
+    std::thread::sleep(Duration::from_millis(WINDOW_MS.load(Ordering::SeqCst) as u64 + 15));
+    let blocked = !done.load(Ordering::SeqCst);
+    PARK_GO.store(true, Ordering::SeqCst);
+    let seen = reader.join().unwrap_or_else(|_| "panic".to_string());
+    let _ = writer.join();
+    COUNTING.store(false, Ordering::SeqCst);
+    let fin = render_snapshot(&tracer.snapshot());
+    let classify = |s: &str| -> Vec<String> {
+        let mut v = vec![];
+        for b in 0..=n { for r in b..=n { if refs[b][r] == s { v.push(format!("{b}-{r}")); } } }
+        v
+    };
+    let mut fails = vec![];
+    let rc = classify(&seen);
+    if rc.is_empty() { fails.push("C20:snapshot_taken_across_round_publications_is_not_a_whole-rounds_state".to_string()); }
+    if fin != refs[0][n] { fails.push(format!("C20:after_all_{n}_rounds_the_state_is_not_rounds_0..{n}_applied_to_an_empty_state(a_round_was_lost_or_reordered)")); }
+    let input = format!("c20park {ms} {mf} {k} {n} {}", render_rounds(rounds));
+    let output = format!("blocked={} reader={} final={}", u8::from(blocked), if rc.is_empty() { "torn".to_string() } else { rc.join("|") },
+        if fin == refs[0][n] { format!("0-{n}") } else { "other".to_string() });
+    out.case(&input, &output, &crate::oracles::verdict(&fails));
+}
+
 /// free-running stress: many readers and a clearer, no control; every snapshot must be a whole-rounds state
 fn stress(ms: usize, mf: usize, rounds: &[RoundIn], readers: usize, out: &mut Out) {
     let refs = reference(rounds, ms, mf);
@@ -270,6 +329,8 @@ pub fn run(args: &Args, out: &mut Out) {
             if t[0] == "c20" {
                 let pre: Vec<(usize, usize, bool)> = if t[4] == "-" { vec![] } else { t[4].split(',').map(|x| { let p: Vec<&str> = x.split('.').collect(); (p[0].parse().unwrap(), p[1].parse().unwrap(), p[2] == "1") }).collect() };
                 controlled(t[1].parse().unwrap(), t[2].parse().unwrap(), &parse_rounds(t[5]), &pre, out);
+            } else if t[0] == "c20park" {
+                parked_reader(t[1].parse().unwrap(), t[2].parse().unwrap(), &parse_rounds(t[5]), t[3].parse().unwrap(), out);
             } else if t[0] == "c20stress" {
                 stress(t[1].parse().unwrap(), t[2].parse().unwrap(), &parse_rounds(t[4]), t[3].parse().unwrap(), out);
             }
@@ -304,6 +365,10 @@ pub fn run(args: &Args, out: &mut Out) {
             if a == b { continue; }
             controlled(ms, mf, &rounds, &[(a.0, a.1, false), (b.0, b.1, true)], out);
             placements += 1;
+        }
+        // a reader parked inside snapshot() while two or more rounds are published
+        if rounds.len() >= 2 {
+            for k in 0..=rounds.len() - 2 { parked_reader(ms, mf, &rounds, k, out); }
         }
         if args.tier_thorough { stress(ms, mf, &rounds, 6, out); }
     }
